@@ -2706,7 +2706,9 @@ XPathProcessorImpl::LocationPathPattern()
         // Tell how long the step is without the predicate
         const XPathExpression::OpCodeMapValueVectorType     theArgs(1, 4, m_constructionContext->getMemoryManager());
 
-        if(lookahead(XalanUnicode::charSolidus, 1) == true)
+        const bool  fAnyAncestor = lookahead(XalanUnicode::charSolidus, 1);
+
+        if(fAnyAncestor == true)
         {
             m_expression->appendOpCode(
                 XPathExpression::eMATCH_ANY_ANCESTOR_WITH_PREDICATE,
@@ -2727,6 +2729,15 @@ XPathProcessorImpl::LocationPathPattern()
         m_expression->updateOpCodeLength(newOpPos);
 
         nextToken();
+
+        // "//" must be followed by a RelativePathPattern; on its
+        // own it is not a pattern, and has no target node test.
+        if (fAnyAncestor == true &&
+            (m_token.empty() == true ||
+             tokenIs(XalanUnicode::charVerticalLine) == true))
+        {
+            error(XalanMessages::ExpectedNodeTest);
+        }
     }
 
     if(m_token.empty() == false)
